@@ -7,7 +7,9 @@ use trust_runtime::error::RuntimeError;
 use trust_runtime::harness::TestHarness;
 use trust_runtime::io::{IoAddress, IoTarget};
 use trust_runtime::memory::{InstanceId, MemoryLocation, VariableStorage};
-use trust_runtime::retain::FileRetainStore;
+use std::sync::{Arc, Mutex};
+use trust_runtime::retain::{FileRetainStore, RetainStore};
+use trust_runtime::RetainSnapshot;
 use trust_runtime::value::{Duration, Value, ValueRef};
 use trust_runtime::RestartMode;
 
@@ -23,6 +25,8 @@ pub enum Op {
     Load,
     Fault,
     WAcc(String, MVal),
+    /// make the storage medium writable / unwritable
+    EnvW(bool),
 }
 
 impl Op {
@@ -38,6 +42,7 @@ impl Op {
             Op::Load => "load".into(),
             Op::Fault => "fault".into(),
             Op::WAcc(n, v) => format!("wacc {n} {}", v.show()),
+            Op::EnvW(w) => format!("envw {}", u8::from(*w)),
         }
     }
 }
@@ -57,6 +62,8 @@ pub struct Dump {
     pub m: String,
     pub dead: usize,
     pub acc: Vec<(String, String)>,
+    /// content of the storage medium (`name=value` in stored order)
+    pub store: Vec<(String, String)>,
     /// flattened `path -> canonical value` (FB instances expanded to their members)
     pub vars: Vec<(String, String)>,
     vline: String,
@@ -65,7 +72,7 @@ pub struct Dump {
 impl Dump {
     pub fn line(&self) -> String {
         format!(
-            "res={} t={} cc={} f={} lf={} fr={} ov={} I={} Q={} M={} dead={} acc={} V {}",
+            "res={} t={} cc={} f={} lf={} fr={} ov={} I={} Q={} M={} dead={} acc={} S={} V {}",
             self.res,
             self.t,
             self.cc,
@@ -81,6 +88,11 @@ impl Dump {
                 "-".to_string()
             } else {
                 self.acc.iter().map(|(n, v)| format!("{n}={v}")).collect::<Vec<_>>().join(",")
+            },
+            if self.store.is_empty() {
+                "-".to_string()
+            } else {
+                self.store.iter().map(|(n, v)| format!("{n}={v}")).collect::<Vec<_>>().join(",")
             },
             self.vline
         )
@@ -215,16 +227,54 @@ fn io_value(a: &Addr, raw: u64) -> Value {
     }
 }
 
+/// A scripted storage medium: `store` fails while `writable` is false.
+#[derive(Default)]
+pub struct ScriptedMedium {
+    pub content: Option<RetainSnapshot>,
+    pub writable: bool,
+}
+
+pub struct ScriptedStore(pub Arc<Mutex<ScriptedMedium>>);
+
+impl RetainStore for ScriptedStore {
+    fn load(&self) -> Result<RetainSnapshot, RuntimeError> {
+        Ok(self.0.lock().unwrap().content.clone().unwrap_or_default())
+    }
+    fn store(&self, snapshot: &RetainSnapshot) -> Result<(), RuntimeError> {
+        let mut m = self.0.lock().unwrap();
+        if !m.writable {
+            return Err(RuntimeError::RetainStore("scripted write failure".into()));
+        }
+        m.content = Some(snapshot.clone());
+        Ok(())
+    }
+}
+
+/// The storage medium of a case: the real `FileRetainStore` inside a directory that may not
+/// exist yet, or a scripted store.
+pub enum Medium {
+    File { dir: PathBuf, path: PathBuf },
+    Scripted(Arc<Mutex<ScriptedMedium>>),
+}
+
 pub struct Exec<'a> {
     pub case: &'a Case,
     pub source: String,
     pub slots: Vec<Option<TestHarness>>,
-    pub store_path: PathBuf,
+    pub medium: Medium,
 }
 
 impl<'a> Exec<'a> {
-    pub fn new(case: &'a Case, store_path: PathBuf) -> Self {
-        Exec { case, source: case.render_source(), slots: vec![None, None], store_path }
+    pub fn new(case: &'a Case, medium: Medium) -> Self {
+        Exec { case, source: case.render_source(), slots: vec![None, None], medium }
+    }
+
+    fn medium_content(&self) -> Vec<(String, String)> {
+        let snap = match &self.medium {
+            Medium::File { path, .. } => FileRetainStore::new(path).load().unwrap_or_default(),
+            Medium::Scripted(m) => m.lock().unwrap().content.clone().unwrap_or_default(),
+        };
+        snap.values().iter().map(|(n, v)| (n.to_string(), canon(v))).collect()
     }
 
     pub fn dump(&self, k: usize, res: Result<(), RuntimeError>) -> Dump {
@@ -272,6 +322,7 @@ impl<'a> Exec<'a> {
             }
         }
         d.dead = dead;
+        d.store = self.medium_content();
         for a in &self.case.access {
             let v = match rt.access_map().get(&a.name).and_then(|b| st.read_by_ref(b.reference.clone())) {
                 Some(v) => show_var(st, v),
@@ -313,9 +364,12 @@ impl<'a> Exec<'a> {
     }
 
     fn set_store(&mut self, k: usize, autosave: bool) {
-        let store = FileRetainStore::new(&self.store_path);
+        let store: Box<dyn RetainStore> = match &self.medium {
+            Medium::File { path, .. } => Box::new(FileRetainStore::new(path)),
+            Medium::Scripted(m) => Box::new(ScriptedStore(m.clone())),
+        };
         let interval = if autosave { Some(Duration::ZERO) } else { None };
-        self.slots[k].as_mut().unwrap().runtime_mut().set_retain_store(Some(Box::new(store)), interval);
+        self.slots[k].as_mut().unwrap().runtime_mut().set_retain_store(Some(store), interval);
     }
 
     /// Run one primitive operation on slot `k` of the real runtime.
@@ -367,6 +421,19 @@ impl<'a> Exec<'a> {
                 Ok(())
             }
             Op::WAcc(n, v) => self.slots[k].as_mut().unwrap().set_access(n, mval_to_value(v)),
+            Op::EnvW(w) => {
+                match &self.medium {
+                    Medium::File { dir, .. } => {
+                        if *w {
+                            std::fs::create_dir_all(dir).map_err(|e| format!("mkdir: {e}"))?;
+                        } else if dir.exists() {
+                            return Err("the file medium only goes from missing to present".into());
+                        }
+                    }
+                    Medium::Scripted(m) => m.lock().unwrap().writable = *w,
+                }
+                Ok(())
+            }
         };
         Ok(self.dump(k, res))
     }
